@@ -12,7 +12,7 @@ import (
 func init() {
 	exec := map[string]func(in In, em *Emitter){
 		"masks": execMasks, "rank": execRank, "rankl": execRankL, "select": execSelect, "selectl": execSelectL, "scan": execScan,
-		"of": execOf, "ofmany": execOfMany, "toarray": execToArray, "join": execJoin, "slice": execSlice,
+		"of": execOf, "ofmany": execOfMany, "toarray": execToArray, "join": execJoin, "joinbig": execJoinBig, "slice": execSlice,
 		"bld": execBuilder,
 	}
 	trivBM := func(k string, in In) bool {
@@ -802,8 +802,48 @@ func execSlice(in In, em *Emitter) {
 	em.Calls(1)
 }
 
+// execJoinBig joins `count` values v_i = i % 65521 of width w (up to 2^31 bits in total: the int32 limit of the
+// package's bit positions) and reports the number of result words, Getw at sampled indexes and sampled words.
+func execJoinBig(in In, em *Emitter) {
+	w := in.I32("w")
+	count := in.Int("count")
+	idxs := in.Is("idxs")
+	o := J{}
+	abn := guard(func() {
+		vals := make([]uint64, count)
+		for i := range vals {
+			vals[i] = uint64(i % 65521)
+		}
+		ws := bitmap.Join(vals, w)
+		gw := make([][]int64, len(idxs))
+		for j, i := range idxs {
+			gw[j] = limbs(bitmap.Getw(ws, int32(i), w))
+		}
+		var words [][]int64
+		for _, i := range idxs { // the word holding element i
+			k := i * int64(w) / 64
+			words = append(words, wordOnes(ws[k]))
+		}
+		o = J{"nw": len(ws), "getw": gw, "words": words}
+	})
+	em.Emit("joinbig", J{"in": in.m, "out": o, "abn": abn})
+	em.Calls(1 + len(idxs))
+}
+
 func genC14(g *Gen) {
 	r := g.R
+	if !g.Quick() { // objects at the int32 limit of bit positions: 2^31 bits = 256 MiB (thorough tier only)
+		for _, w := range []int64{64, 32} {
+			for _, bits := range []int64{1 << 31, 1<<31 - 64, 1 << 30} {
+				count := bits / w
+				idxs := []int64{0, 1, count - 1, count - 2, count / 2, 65520, 65521, 65522}
+				for k := 0; k < 20; k++ {
+					idxs = append(idxs, r.Int63n(count))
+				}
+				g.Case("joinbig", J{"w": w, "count": count, "idxs": idxs})
+			}
+		}
+	}
 	for _, w := range []int{1, 2, 4, 8, 16, 32, 64} {
 		maxLen := 3*64/w + 1
 		for rep := 0; rep < g.N(120, 4000); rep++ {
